@@ -7,6 +7,7 @@ pub mod c13;
 pub mod c17;
 pub mod c12;
 pub mod c05;
+pub mod c03grid;
 
 use crate::histex::BResult;
 use crate::props::Tier;
@@ -20,6 +21,14 @@ pub fn run(prop: &str, tier: Tier) -> Option<BResult> {
         "C17" => Some(c17::run(tier)),
         "C12" => Some(c12::run(tier)),
         "C05" => Some(c05::run(tier)),
+        _ => None,
+    }
+}
+
+/// Fork-based grids that belong to a property whose main check is engine A.
+pub fn grid_for_a(prop: &str, tier: Tier) -> Option<BResult> {
+    match prop {
+        "C03" => Some(c03grid::run(tier)),
         _ => None,
     }
 }
